@@ -45,9 +45,9 @@ var (
 	}
 	byName   = map[string]prop{}
 	signed   = map[string]base.ProposalSignFact{}
-	byHash   = map[string]string{}        // proposal fact hash -> name
-	manifest = map[string]util.Hash{}     // name -> manifest hash ("x" -> a hash of no proposal)
-	manName  = map[string]string{}        // manifest hash -> name
+	byHash   = map[string]string{}    // proposal fact hash -> name
+	manifest = map[string]util.Hash{} // name -> manifest hash ("x" -> a hash of no proposal)
+	manName  = map[string]string{}    // manifest hash -> name
 	once     sync.Once
 )
 
